@@ -90,7 +90,10 @@ def case(ctx):
     delta0 = Fr(max(1e-5, 1e-5 * L, 1e-5 / s))
     case.tags["contact"] = cls["contact"]
     case.tags["curved"] = bool(curved)
-    case.tags["diameter"] = L * s
+    # the smallest curved boundary decides when the absolute tolerances bite (a small curved hole
+    # or component inside a larger configuration)
+    curved_diams = [O.diameter(O.curve_bbox(c)) for c in curves if any(len(seg) > 2 for seg in c)]
+    case.tags["diameter"] = (min(curved_diams) if curved_diams else L) * s
     case.tags["maxcoord"] = max(abs(dx), abs(dy)) + L * s
     case.tags["scale"] = s
     ops = list(OPS)
